@@ -39,6 +39,7 @@ Reading of the statements (model: `Model/RandomViews.lean`, which transcribes th
   `(i,k)` by row and column, or a multi-index — is the element of the view at that position (flat
   `i*ncols+k`, row-major flat index of the multi-index), lanes = consecutive columns.  (This is the
   code after the `fix:` commit; before it these members used `i+k` and the sum of the multi-index.)
+* `flatIndex_bumpLast`, `teval_lanes`: the same for every rank.
 * `filter_teval_rank3`: the multi-index members of a mask view (after the second `fix:` commit: lane `l` is the
   element at `(x,y,z+l)`; before it every lane held the element at `(x,y,z)`).
 
@@ -334,6 +335,43 @@ theorem filter_write (ap : α → α → α) (ofInt : Int → α) (env : Nat →
     intro e
     exact h ⟨e ▸ List.mem_range.1 hi1, e ▸ hi2⟩
 
+/-- advancing a multi-index by `j` along its last axis advances the row-major flat index by `j` — all ranks -/
+theorem flatIndex_bumpLast (dims as : List Nat) (j : Nat) (hlen : as.length = dims.length) (hne : as ≠ []) :
+    flatIndex dims (bumpLast as j) = flatIndex dims as + j := by
+  induction as generalizing dims with
+  | nil => exact absurd rfl hne
+  | cons a rest ih =>
+    cases dims with
+    | nil => simp at hlen
+    | cons d ds =>
+      cases rest with
+      | nil =>
+        have hds : ds = [] := by
+          cases ds with
+          | nil => rfl
+          | cons _ _ => simp at hlen
+        subst hds
+        simp [bumpLast, flatIndex]
+      | cons b rest' =>
+        have hlen' : (b :: rest').length = ds.length := by simpa using hlen
+        have := ih ds hlen' (by simp)
+        simp only [bumpLast, flatIndex] at this ⊢
+        rw [this]; omega
+
+omit [Zero α] [Add α] [Sub α] [Mul α] in
+/-- **all ranks**: lane `l` of `teval(as)` of an index view is `teval_s` at the multi-index advanced by `l` along the last axis -/
+theorem teval_lanes (data : Nat → α) (it : Nat → Nat) (V : Nat) (dims as : List Nat) (l : Nat) (hl : l < V)
+    (hlen : as.length = dims.length) (hne : as ≠ []) :
+    (tevalV data it V dims as)[l]? = some (tevalS data it dims (bumpLast as l)) := by
+  unfold tevalV tevalS
+  rw [vectorSetter_eq, flatIndex_bumpLast dims as l hlen hne]
+  simp [laneInds, forRange_zero_one, hl]
+
+/-- non-vacuity: rank 4, the vector form at `(1,0,1,1)` of a `2x2x2x4` index tensor, width 2 -/
+example : tevalV (fun p => (p : Int)) (fun q => 100 - q) 2 [2, 2, 2, 4] [1, 0, 1, 1] = [100 - 21, 100 - 22] := by decide
+example : ([1, 0, 1, 1] : List Nat).length = [2, 2, 2, 4].length ∧ ([1, 0, 1, 1] : List Nat) ≠ [] := by decide
+
+omit [Add α] [Sub α] [Mul α] in
 /-- `teval_s` / `teval` of a rank-3 mask view: the element at `(x,y,z)` where the mask is true and `0` elsewhere;
     lane `l` of the vector form is the scalar form at `(x,y,z+l)` -/
 theorem filter_teval_rank3 (data : Nat → α) (mask : Nat → Bool) (V d0 d1 d2 x y z l : Nat) (hl : l < V) :
